@@ -146,6 +146,13 @@ func checkCase(t reporter, s *caseSpec, tables []ceremony.VerifC17Shard) {
 		outs = append(outs, &o)
 	}
 
+	// (ix) a node with another sync status (live / syncing / catching up with an old head) that handles the
+	// blocks in the validation periods they were mined in (short session, long session, after long session)
+	if s.Sync != nil {
+		o := syncVariant(s, ledger)
+		outs = append(outs, &o)
+	}
+
 	var diffs []string
 	for _, o := range outs[1:] {
 		if d := difference(s, &first, o); d != "" {
@@ -159,6 +166,20 @@ func checkCase(t reporter, s *caseSpec, tables []ceremony.VerifC17Shard) {
 
 	if v := statementOnOutcome(s, &first, tables); v != "" {
 		t.Fatalf("case:\n%s\nresult:\n%s\nSTATEMENT BROKEN: %s", s.describe(), first.Canon, v)
+	}
+
+	// (x) the rule "grades of such a participant are ignored": the same chain with the ignored grades left out
+	gr := gradingView(s, tables)
+	if len(gr.Wiped) > 0 {
+		s.setClock(11)
+		o := wipedTwin(s, ledger, gr)
+		if d := difference(s, &first, &o); d != "" {
+			t.Fatalf("case:\n%s\nfirst result:\n%s\nGRADES THAT THE RULES SAY ARE IGNORED CHANGED THE EPOCH RESULT (%s):\n%s", s.describe(), first.Canon, gr.describe(s), d)
+		}
+	}
+	s.recordGrading(gr, &first)
+	if s.Sync != nil {
+		s.recordSync()
 	}
 	s.record(&first, tables)
 	if s.Reset != nil {
@@ -575,6 +596,7 @@ func drawParticipation(t *rapid.T, s *caseSpec, tables []ceremony.VerifC17Shard)
 		p.LongBits = pick(t, "longBits", 85, 5, 5, 3, 2)
 		p.Evidence = pick(t, "sendsEvidence", 85, 15) == 0
 		p.EvNoise = []int{0, 5, 30}[pick(t, "evidenceNoise", 70, 20, 10)]
+		p.Grading = pick(t, "grading", 55, 15, 10, 10, 10)
 	}
 	// Several shards: in a good part of the cases one shard's own evidence does not approve candidates that
 	// did answer (nobody of the shard sends a map, or a few answer hashes came late), while the other
@@ -749,6 +771,7 @@ func TestEpochReproducible(t *testing.T) {
 		drawArrival(t, s)
 		drawReset(t, s, tables)
 		drawMempool(t, s, tables)
+		drawSync(t, s)
 		checkCase(t, s, tables)
 	})
 }
